@@ -3,11 +3,13 @@
 ENGINES = [
     {"name": "PROG", "path": "mc/prog.py, mc/proggen.py", "serves_properties": ["C01", "C05", "C06", "C14"],
      "kind_free_text": "bounded-exhaustive enumerator of component programs (AST + printer) executed on the real library and compared with a reference interpreter"},
+    {"name": "SCHED", "path": "mc/sched.py", "serves_properties": ["C07"],
+     "kind_free_text": "stateless exploration of real threads: baton scheduler, sys.settrace scheduling points from an AST scan of the working tree, cooperative locks, iterative preemption bounding, DFS sharded over first deviations"},
     {"name": "SEQ", "path": "mc/seq.py", "serves_properties": ["C18"],
      "kind_free_text": "explicit-state BFS over operation histories on the real objects, canonical-state merging, reference model per step, unmerged cross-check"},
 ]
 
-FIX_COMMITS = ["9971f7b (C01)", "a8b3a60 (C05)", "d2c67e0 (C06)", "af8a5f7 (C06)"]
+FIX_COMMITS = ["9971f7b (C01)", "a8b3a60 (C05)", "d2c67e0 (C06)", "af8a5f7 (C06)", "34517b9 (C07)", "64d9058 (C07)"]
 
 _PENDING = "check not built yet in this session (build order: DESIGN.md section 6); it will be decided by the same bounded-exhaustive technique"
 
@@ -41,6 +43,15 @@ CHECKS = {
                 "the escaping exception must be the injected object, all six render registries empty, caller context and metadata stacks restored, sentinels dead, a follow-up render pristine, "
                 "repetition growth-free; plus all ok/fail histories <= 3 over 4 programs.",
         "note": "fault sites are harness callbacks (built-in tag failures represented by the harness tag); liveness via weakref + gc.collect(); bounded program size",
+    },
+    "C07": {
+        "engine": "SCHED",
+        "design_ref": "DESIGN.md 2.2, 3/C07",
+        "technique": "stateless model checking of real threads: exhaustive schedules up to a preemption bound (CHESS-style iterative context bounding)",
+        "text": "Seven 2-thread scenarios (provide/inject incl. a failing render, template compilation through a full LRU cache, first media resolution, lazily created singletons, "
+                "nested vs failing nested renders) are executed on the real library under a baton scheduler for every schedule with <= k preemptions at every line touching process-global state "
+                "(quick k=2 on the provide-error and LRU scenarios, k=1 elsewhere; thorough k=3 / k=2); each thread's result must equal its solo result, no deadlock, no residue, LRU list/dict invariant.",
+        "note": "CPython+GIL, preemption between source lines of the scheduling set only (under-approximation: every explored schedule is realisable); 2 threads; library locks become cooperative locks via a wrapper installed before import",
     },
     "C14": {
         "engine": "PROG",
